@@ -44,6 +44,8 @@ TypeOfOK(v, ty, k) == /\ Member(v, ty) /\ Wit(ty, {v}, FALSE)
 ArgSetV(s) == {[n |-> s[j].n, v |-> J2T(s[j].v)] : j \in 1..Len(s)}
 ArgSetT(s) == {[n |-> s[j].n, ty |-> J2T(s[j].ty)] : j \in 1..Len(s)}
 
+YName(p, clause) == IF p.kind = "agen" THEN "AsyncGen" \o clause ELSE clause
+
 \* which clauses does log entry lg falsify when it is taken to describe completed call p?
 LogViol(p, lg, k) ==
   LET la == ArgSetT(lg.args)
@@ -54,10 +56,11 @@ LogViol(p, lg, k) ==
   \cup (IF p.exc /\ ~IsAbsent(ret) THEN {"ReturnAbsentOnException"} ELSE {})
   \cup (IF ~p.exc /\ IsAbsent(ret) THEN {"ReturnPresent"} ELSE {})
   \cup (IF ~p.exc /\ ~IsAbsent(ret) /\ ~TypeOfOK(p.ret, ret, k) THEN {"ReturnType"} ELSE {})
-  \cup (IF p.ys = {} /\ ~IsAbsent(ys) THEN {"YieldsOnly"} ELSE {})
-  \cup (IF p.ys # {} /\ IsAbsent(ys) THEN {"YieldsCovered"} ELSE {})
-  \cup (IF p.ys # {} /\ ~IsAbsent(ys) /\ ~(\A v \in p.ys : Member(v, ys)) THEN {"YieldsCovered"} ELSE {})
-  \cup (IF p.ys # {} /\ ~IsAbsent(ys) /\ ~Wit(ys, p.ys, FALSE) THEN {"YieldsOnly"} ELSE {})
+  \* (the yield clauses carry another name for async generators, so that a finding recorded for them hides nothing else)
+  \cup (IF p.ys = {} /\ ~IsAbsent(ys) THEN {YName(p, "YieldsOnly")} ELSE {})
+  \cup (IF p.ys # {} /\ IsAbsent(ys) THEN {YName(p, "YieldsCovered")} ELSE {})
+  \cup (IF p.ys # {} /\ ~IsAbsent(ys) /\ ~(\A v \in p.ys : Member(v, ys)) THEN {YName(p, "YieldsCovered")} ELSE {})
+  \cup (IF p.ys # {} /\ ~IsAbsent(ys) /\ ~Wit(ys, p.ys, FALSE) THEN {YName(p, "YieldsOnly")} ELSE {})
 
 Ev == Recs[i].events[l + 1]
 
@@ -66,7 +69,7 @@ FrameOf(fid) == frames[fid]
 Complete(fid, retv, exc) ==
   LET fr == FrameOf(fid)
   IN  IF fr.wanted
-      THEN Append(pending, [f |-> fr.f, args |-> fr.args, ys |-> fr.ys, ret |-> retv, exc |-> exc, must |-> fr.must])
+      THEN Append(pending, [f |-> fr.f, kind |-> fr.kind, args |-> fr.args, ys |-> fr.ys, ret |-> retv, exc |-> exc, must |-> fr.must])
       ELSE pending
 
 \* index of the first pending call that log entry lg can describe (0 if none)
@@ -76,10 +79,17 @@ FirstSameF(lg) == IF \E j \in 1..Len(pending) : pending[j].f = lg.f
 \* the pending call of the same function that the entry describes best (fewest falsified clauses)
 BestSameF(lg, k) ==
   LET C == {j \in 1..Len(pending) : pending[j].f = lg.f}
-      n(j) == Cardinality(LogViol(pending[j], lg, k))
+      \* (the async-generator yield clauses do not count: every log entry of an async generator falsifies them on this
+      \* interpreter, which must not make the entry look like the description of another call)
+      n(j) == Cardinality(LogViol(pending[j], lg, k) \ {"AsyncGenYieldsOnly", "AsyncGenYieldsCovered"})
+      best == {j \in C : \A h \in C : n(j) <= n(h)}
+      \* among equally good candidates, one that the sampling draw obliges to be logged; then the oldest
+      pref == IF \E j \in best : pending[j].must THEN {j \in best : pending[j].must} ELSE best
   IN  IF C = {} THEN 0
-      ELSE CHOOSE j \in C : \A h \in C : n(j) < n(h) \/ (n(j) = n(h) /\ j <= h)
+      ELSE CHOOSE j \in pref : \A h \in pref : j <= h
 Exact(j, lg, k) == pending[j].f = lg.f /\ LogViol(pending[j], lg, k) = {}
+\* exact up to the async-generator yield clauses
+AlmostExact(j, lg, k) == pending[j].f = lg.f /\ LogViol(pending[j], lg, k) \subseteq {"AsyncGenYieldsOnly", "AsyncGenYieldsCovered"}
 \* the oldest exactly described pending call; among several, one that the sampling draw obliges to be logged first
 FirstExact(lg, k) == IF \E j \in 1..Len(pending) : Exact(j, lg, k) /\ pending[j].must
                      THEN CHOOSE j \in 1..Len(pending) :
@@ -97,7 +107,7 @@ Step ==
      IN
      CASE e.ev = "Call" ->
             \* must = the tracer consulted the sampling RNG at this call's entry and the draw said "trace"
-            /\ frames' = Append(frames, [f |-> e.f, wanted |-> e.wanted, args |-> ArgSetV(e.args), ys |-> {},
+            /\ frames' = Append(frames, [f |-> e.f, kind |-> e.kind, wanted |-> e.wanted, args |-> ArgSetV(e.args), ys |-> {},
                                          must |-> (e.kind = "plain" /\ e.drawn /\ e.draw = 0), entered |-> (e.kind = "plain")])
             /\ UNCHANGED <<pending, viol>>
        [] e.ev \in {"Resume", "Delegate"} ->
